@@ -2,6 +2,10 @@
 (* C06 - the algorithm that loads a configuration file, as a machine, and the theorems that tie it
    to the declarative meaning (ConfigExpandDecl).
 
+   Environment (Build): a configuration file is written step by step - the initial states fix the
+   seven flags, PickAxes the five repeated fields, AddInclude / AddExclude append one entry.  Every
+   state with pc = "features" is a complete file from which the loader may start.
+
    Machine (one action per step of the loader; the two loops of the loader are one action per
    iteration):
        ResolveFeatures   defaults + sequential contradiction checks          (resolveFeatures)
@@ -25,7 +29,7 @@ CONSTANTS AxisVs, AxisPs, AxisCs, AxisZs, AxisSs,   \* pools of axis subsets (se
           EntryPool,                                \* set of entries (records of EntryDom)
           MaxInc, MaxExc                            \* list lengths 0..MaxInc / 0..MaxExc
 
-VARIABLES cfg,      \* the configuration (chosen in Init, never changes)
+VARIABLES cfg,      \* the configuration file (grows during Build, fixed once the loader has started)
           pc,       \* "pick" | "features" | "expand" | "include" | "exclude" | "finish" | "done"
           feat,     \* resolved features (or Null)
           acc,      \* accumulated set of cases
@@ -34,11 +38,6 @@ VARIABLES cfg,      \* the configuration (chosen in Init, never changes)
 vars == <<cfg, pc, feat, acc, ix, out>>
 
 Null == [kind |-> "null"]
-
-(* ------------------------------ configurations ------------------------------ *)
-FeatPool == [vs : AxisVs, ps : AxisPs, cs : AxisCs, zs : AxisZs, ss : AxisSs,
-             h2c : TriH2c, tls : TriTls, certs : TriCerts, trailers : TriTrailers, hdh1 : TriHdh1,
-             get : TriGet, lim : TriLim]
 
 (* ------------------------- operational: resolveFeatures ------------------------- *)
 Err(class) == [ok |-> FALSE, class |-> class]
